@@ -53,6 +53,7 @@ type TopoOpts struct {
 	MinCPUs      int
 	NoOffline    bool
 	NoIsolated   bool
+	WantIsolated bool // always try to isolate some cores
 	NoSpecial    bool // no CPU-less nodes
 	NoMemoryless bool
 	NoHybrid     bool
@@ -204,7 +205,7 @@ func GenTopo(t *rapid.T, o TopoOpts) *Topo {
 		}
 	}
 	// isolated CPUs: whole cores, never more than half of a node's online CPUs
-	if !o.NoIsolated && ncpu >= 4 && rapid.IntRange(0, 2).Draw(t, "anyIsolated") == 0 {
+	if !o.NoIsolated && ncpu >= 4 && (rapid.IntRange(0, 2).Draw(t, "anyIsolated") == 0 || o.WantIsolated) {
 		k := rapid.IntRange(1, max(1, ncpu/8)).Draw(t, "nIsolatedCores")
 		for i := 0; i < k; i++ {
 			id := rapid.IntRange(0, ncpu-1).Draw(t, "isolated")
